@@ -26,9 +26,9 @@ TEXT = {'design_ref': 'DESIGN.md section 4, C06',
          "payload, index, child order and every other session's subscription marks (`frame_tree`, `frame_tree_foreign`, `foreign_marks_kept`, "
          '`victim_untouched`); other sessions keep subscriptions, parameters, flags and stay attached (`frame_sessions`); host and session nodes survive '
          'REMOVEDATA (`own_root_kept`); on departure the session leaves the table, its subtree is gone, the marks it held on visited nodes are cleared and '
-         'nothing else changes (`departure_*`).  Tie: the model reproduces the real server; the harness compares a digest of everything foreign before/after '
-         "every command and after a connection cut placed inside a command's byte stream, and checks that no node or subscription mark of a departed session "
-         'remains.',
- 'note': '`departure_no_marks` is partial (needs that every marked node is visited by the cleanup traversal = C05 completeness + a marks invariant); '
-         'privileged commands (KICK/bans) and the twin-server statement are covered by the oracle only.  Model covers the command subset of Engines/Srv.lean; '
-         'arbitrary Messages are decided by the oracle alone.'}
+         'nothing else changes (`departure_*`, `departure_no_marks`).  Tie: the model reproduces the real server; the harness compares a digest of everything '
+         "foreign before/after every command and after a connection cut placed inside a command's byte stream, and checks that no node or subscription mark of "
+         'a departed session remains.',
+ 'note': '`departure_no_marks` is proved for every reachable state (the coverage hypothesis of `departure_no_marks_partial`, which holds for ANY state, is '
+         "discharged by C04's subscriber-table invariant `marks_correct`); privileged commands (KICK/bans) and the twin-server statement are covered by the "
+         'oracle only.  Model covers the command subset of Engines/Srv.lean; arbitrary Messages are decided by the oracle alone.'}
